@@ -210,3 +210,19 @@ mtext("C10",
       "trusted: reference strings, sim-heap block table, the 'fails iff unrepresentable or the allocator said no' rule; C locale",
       "deterministic simulation with allocator fault injection and abort trap vs reference model",
       "DESIGN.md 4.C10")
+
+check("C14", "exploration",
+      [dict(world="array", mode=14, variants=V_ALLOC, quick=80000, thorough=8000000)],
+      RULE_ALLOC + "; 2-4 array objects over up to 3-4 live buffers (internal and externally supplied)",
+      ["src/array.c", "include/cstl/array.h", "src/memory.c"], stubs=ALLOC_STUBS,
+      required_probes=["alloc_on_sliced_object", "set_on_sliced_object", "slice_in_place", "slice_beyond_own_length", "slice_abort", "at_abort", "unslice",
+                       "release_sole_user", "release_refused_other_views", "release_refused_internal", "buffer_released_with_last_view", "alloc_fail_fired",
+                       "product_unrepresentable", "set_external"])
+mtext("C14",
+      "Seeded histories of alloc/set/slice/unslice/reset/release over 2-4 array objects (alloc and set onto empty, full-view and sliced objects; slice in place and into objects holding the same or another buffer; "
+      "element counts/sizes including unrepresentable products and over-budget requests; slice bounds incl. buffer size +1, SIZE_MAX, values that wrap with the view offset). After every operation: size, data(), and at() for first/middle/last index "
+      "must equal buffer base + (offset+i)*size and lie inside a live sim-heap block; a buffer's library blocks (recorded from the allocator events of the call that created it) must be live while any object refers to it and gone in the very operation "
+      "that drops the last reference; externally supplied buffers are never freed by the library (sim heap rejects it) and release hands them back only to the sole user. Out-of-range at/slice and unslice of an empty object must abort (one per run, last).",
+      "trusted: buffer/view model with reference counts, sim-heap block table and event log",
+      "deterministic simulation with allocator fault injection and abort trap vs reference model (buffer lifetime = conservation over allocator events)",
+      "DESIGN.md 4.C14")
